@@ -741,12 +741,96 @@ def stmt_start_ok(toks, k):
     return j < 0 or (toks[j][0] == 'punct' and toks[j][1] in ';{}')
 
 
+def stmt_kind(toks, k):
+    """structural description of the statement starting at token index k: (kind, name)
+    kinds: return/while/for/loop/if/match/break/continue, let NAME, assign NAME, call NAME, expr"""
+    sg = []
+    j = k
+    depth = 0
+    while j < len(toks) and len(sg) < 400:
+        t = toks[j]
+        if t[0] not in ('ws', 'lcomment', 'bcomment'):
+            if t[0] == 'punct' and t[1] in '([{':
+                depth += 1
+            elif t[0] == 'punct' and t[1] in ')]}':
+                depth -= 1
+                if depth < 0:
+                    break
+            sg.append((t, depth))
+            if t[0] == 'punct' and t[1] == ';' and depth == 0:
+                break
+        j += 1
+    if not sg:
+        return ('expr', '')
+    first = sg[0][0]
+    if first[0] == 'id' and first[1] in ('return', 'while', 'for', 'loop', 'if', 'match', 'break', 'continue'):
+        return (first[1], '')
+    if first[0] == 'id' and first[1] == 'let':
+        for t, d in sg[1:]:
+            if t[0] == 'id' and t[1] not in ('mut', 'ref', 'ghost', 'tracked'):
+                return ('let', t[1])
+        return ('let', '')
+    # assignment: a top-level `=` (not ==, <=, >=, !=, =>) before any `(` at depth 0 ... scan depth-0 tokens
+    for idx in range(1, len(sg)):
+        t, d = sg[idx]
+        if t[0] == 'punct' and t[1] == '=' and (d == 0):
+            prev = sg[idx - 1][0]
+            nxt = sg[idx + 1][0] if idx + 1 < len(sg) else None
+            if nxt is not None and nxt[1] in ('=', '>') and nxt[2] == t[3]:
+                continue
+            if prev[1] in ('=', '!', '<', '>') and prev[3] == t[2]:
+                continue
+            if first[0] == 'id':
+                return ('assign', first[1] if first[1] != 'self' else _last_field(sg, idx))
+            if first[1] == '*' and len(sg) > 1:
+                return ('assign', sg[1][0][1])
+        if t[0] == 'punct' and t[1] == '{' and d == 1:
+            break
+    # call: identifier directly before the first `(`
+    for idx in range(1, len(sg)):
+        t, d = sg[idx]
+        if t[0] == 'punct' and t[1] == '(' and sg[idx - 1][0][0] == 'id':
+            return ('call', sg[idx - 1][0][1])
+    return ('expr', first[1])
+
+
+def _last_field(sg, upto):
+    # `self.0[i].0.end = ..` -> name the assignment after the last identifier/number path segment before `=`
+    name = 'self'
+    for t, d in sg[:upto]:
+        if t[0] == 'id' and d == 0:
+            name = t[1]
+    return name
+
+
 def find_anchor(text, toks, pat, nth, where):
-    """k-th occurrence (1-based) of whitespace-normalized `pat` starting at a statement start.
-    returns token index of the first token of the statement"""
-    want = norm_tokens(pat)
+    """k-th occurrence (1-based) of an anchor at a statement start; returns the token index of the
+    statement's first token.  Two forms:
+      text        whitespace-insensitive prefix of the statement's source text
+      stmt:KIND [NAME]   structural: the k-th statement of that kind in source order, KIND in
+                  return|while|for|loop|if|match|break|continue|let|assign|call|expr
+                  (let NAME = bound variable, assign NAME = first identifier of the target (last field for self.*),
+                  call NAME = function/method called first).  Structural anchors survive edits to operators,
+                  constants and operands."""
     sg = [(k, t) for k, t in enumerate(toks) if t[0] not in ('ws', 'lcomment', 'bcomment')]
     hits = []
+    if pat.startswith('stmt:'):
+        spec = pat[5:].split()
+        kind = spec[0]
+        name = spec[1] if len(spec) > 1 else None
+        for a in range(len(sg)):
+            k, t = sg[a]
+            if not stmt_start_ok(toks, k):
+                continue
+            if t[0] == 'punct' and t[1] in '})]':
+                continue
+            kd, nm = stmt_kind(toks, k)
+            if kd == kind and (name is None or nm == name):
+                hits.append(k)
+        if len(hits) < nth:
+            raise ExtractError('anchor-lost', '%s: structural anchor `%s` #%d not found (%d hits)' % (where, pat, nth, len(hits)))
+        return hits[nth - 1]
+    want = norm_tokens(pat)
     for a in range(len(sg)):
         k, t = sg[a]
         if not stmt_start_ok(toks, k):
